@@ -1,8 +1,12 @@
 package h
 
 import (
+	"bytes"
+	"flag"
 	"fmt"
 	"math/rand"
+	"os"
+	"sort"
 	"strings"
 )
 
@@ -418,3 +422,58 @@ func GenConformingDoc(r *rand.Rand, p *AP) []Tok {
 	}
 	return gen(0, 2+r.Intn(6))
 }
+
+// cmdTwiceBig: C20 on inputs whose first-pass output is several times larger than the input (every character escaped) or
+// simply large: whatever limit a second pass might run into, Sanitize(Sanitize(x)) must still equal Sanitize(x).
+func cmdTwiceBig(args []string) int {
+	fs := flag.NewFlagSet("twicebig", flag.ExitOnError)
+	_ = fs.Int64("seed", 1, "")
+	outPath := fs.String("out", "", "")
+	job := fs.String("job", "twicebig", "")
+	fs.Parse(args)
+	res := &RunResult{Job: *job, Applicable: map[string]int{}}
+	seen := map[string]bool{}
+	inputs := map[string]string{
+		"300 KiB of double quotes":          strings.Repeat(`"`, 300<<10),
+		"300 KiB of ampersands":             strings.Repeat(`&`, 300<<10),
+		"200 KiB of less-than signs + text": strings.Repeat(`< `, 100<<10) + "end",
+		"1.2 MiB of plain text":             strings.Repeat("plain text ", 120000),
+		"64 KiB href of non-ASCII letters":  `<a href="/` + strings.Repeat("é", 32<<10) + `">l</a>`,
+		"many small escaped tags":           strings.Repeat(`<blink>"&'</blink>`, 40000),
+	}
+	names := []string{}
+	for k := range inputs {
+		names = append(names, k)
+	}
+	sort.Strings(names)
+	for _, rc := range []Recipe{{{M: "StrictPolicy"}}, {{M: "UGCPolicy"}}} {
+		rc[0].norm()
+		real, model := BuildReal(rc), BuildAP(rc)
+		for _, n := range names {
+			in := []byte(inputs[n])
+			once := real.SanitizeBytes(append([]byte{}, in...))
+			twice := real.SanitizeBytes(append([]byte{}, once...))
+			res.Execs++
+			res.Applicable["C20"]++
+			if !bytes.Equal(once, twice) {
+				short := func(b []byte) string {
+					if len(b) > 60 {
+						return fmt.Sprintf("%q… (%d bytes)", b[:60], len(b))
+					}
+					return fmt.Sprintf("%q", b)
+				}
+				x := NewExec(rc, model, real, []byte("generator: "+n), nil, nil)
+				res.addViolation(Finding{"C20", "not-idempotent-large", fmt.Sprintf("%s under %s: the first pass gives %s, sanitising that again gives %s", n, rc[0].M, short(once), short(twice))}, x, seen)
+			}
+		}
+	}
+	res.Cases = res.Execs
+	res.Nontrivial = res.Execs
+	if *outPath != "" {
+		os.WriteFile(*outPath, JSON(res), 0o644)
+	}
+	fmt.Printf("twicebig: execs=%d violations=%d\n", res.Execs, len(res.Violations))
+	return 0
+}
+
+func init() { Commands["twicebig"] = cmdTwiceBig }
